@@ -10,3 +10,5 @@ open IrVerif.Extract
 #print axioms C18_eval
 #print axioms C18_cover_of_clone
 #print axioms C18_raises_of_uncovered
+#print axioms C18_captures_complete
+#print axioms C18_captures_sound
